@@ -1,5 +1,5 @@
 (* proof/NhcbProofs.v — lemmas about model/Nhcb.v (C36). *)
-From Coq Require Import List ZArith Bool String Lia.
+From Coq Require Import List ZArith Bool String Lia Arith.
 From Verif Require Import model.Nhcb.
 Import ListNotations.
 Open Scope Z_scope.
@@ -639,3 +639,280 @@ Proof.
 Qed.
 
 End OneHist.
+
+(* ------------------------------------------------------------------ the exemplar buffer *)
+
+Lemma length_zero_nth : forall k l, List.length (zero_nth k l) = List.length l.
+Proof. induction k; destruct l; simpl; auto. Qed.
+
+Lemma length_write_nth : forall p k x l, List.length (write_nth p k x l) = List.length l.
+Proof. induction k; destruct l; simpl; auto. Qed.
+
+Lemma firstn_zero_nth : forall k l, firstn k (zero_nth k l) = firstn k l.
+Proof. induction k; destruct l; simpl; auto. f_equal. apply IHk. Qed.
+
+Lemma nth_zero_nth : forall k l, (k < List.length l)%nat -> nth k (zero_nth k l) ex_zero = ex_zero.
+Proof. induction k; destruct l; simpl; intros H; try lia; auto. apply IHk. lia. Qed.
+
+Lemma firstn_write_nth : forall p k x l, firstn k (write_nth p k x l) = firstn k l.
+Proof. induction k; destruct l; simpl; auto. f_equal. apply IHk. Qed.
+
+(* a write is exact when the parser assigns every field, or the slot held no timestamp *)
+Lemma firstn_S_write_nth : forall p k x l,
+  (k < List.length l)%nat -> (p = false \/ snd (nth k l ex_zero) = None) ->
+  firstn (S k) (write_nth p k x l) = firstn k l ++ [x].
+Proof.
+  induction k; destruct l as [|y r]; simpl; intros H Hp; try lia.
+  - destruct x as [i t]. simpl. destruct t; [reflexivity|].
+    destruct Hp as [-> | Hn]; [reflexivity|]. simpl in Hn. rewrite Hn. destruct p; reflexivity.
+  - f_equal. apply IHk; [lia | exact Hp].
+Qed.
+
+Definition full (k : nat) (e : exbuf) : Prop :=
+  eb_len e = k /\ eb_cnt e = k /\ (k <= List.length (eb_arr e))%nat.
+Definition spare (partial : bool) (k : nat) (e : exbuf) : Prop :=
+  eb_len e = S k /\ eb_cnt e = k /\ (S k <= List.length (eb_arr e))%nat /\
+  (partial = false \/ snd (nth k (eb_arr e) ex_zero) = None).
+
+Section Buf.
+Variables partial zero : bool.
+Hypothesis Hz : partial = false \/ zero = true.
+
+Lemma next_ptr_full : forall k e, full k e ->
+  spare partial k (next_ptr zero e) /\ firstn k (eb_arr (next_ptr zero e)) = firstn k (eb_arr e).
+Proof.
+  intros k e [Hl [Hc Hle]]. unfold next_ptr. rewrite Hl, Hc.
+  replace (Z.of_nat k =? Z.of_nat k - 1) with false by (symmetry; apply Z.eqb_neq; lia).
+  destruct (k =? List.length (eb_arr e))%nat eqn:E.
+  - apply Nat.eqb_eq in E. unfold spare. simpl.
+    assert (Hg : (1 <= growcap k - k)%nat) by (unfold growcap; destruct k; lia).
+    destruct (growcap k - k)%nat as [|g] eqn:EG; [lia|].
+    rewrite app_length, firstn_length, repeat_length. simpl repeat.
+    split; [split; [reflexivity|split; [reflexivity|split; [lia|]]]|].
+    + right. rewrite app_nth2 by (rewrite firstn_length; lia).
+      rewrite firstn_length. replace (k - Nat.min k (List.length (eb_arr e)))%nat with O by lia. reflexivity.
+    + rewrite firstn_app, firstn_length. replace (k - Nat.min k (List.length (eb_arr e)))%nat with O by lia.
+      simpl. rewrite app_nil_r, firstn_firstn, Nat.min_id. reflexivity.
+  - apply Nat.eqb_neq in E. unfold spare. simpl.
+    destruct zero.
+    + rewrite length_zero_nth. split; [split; [reflexivity|split; [reflexivity|split; [lia|]]]|].
+      * right. rewrite nth_zero_nth by lia. reflexivity.
+      * apply firstn_zero_nth.
+    + destruct Hz as [Hp|Hp]; [|discriminate].
+      split; [split; [reflexivity|split; [reflexivity|split; [lia|left; exact Hp]]]|reflexivity].
+Qed.
+
+Lemma next_ptr_spare : forall k e, spare partial k e -> next_ptr zero e = e.
+Proof.
+  intros k e [Hl [Hc _]]. unfold next_ptr. rewrite Hl, Hc.
+  replace (Z.of_nat k =? Z.of_nat (S k) - 1) with true by (symmetry; apply Z.eqb_eq; lia).
+  reflexivity.
+Qed.
+
+Lemma store_exemplars_spec : forall xs e k,
+  full k e \/ spare partial k e ->
+  let e' := store_exemplars partial zero e xs in
+  spare partial (k + List.length xs) e' /\
+  firstn (k + List.length xs) (eb_arr e') = firstn k (eb_arr e) ++ xs.
+Proof.
+  induction xs as [|x r IH]; intros e k H; simpl.
+  - rewrite Nat.add_0_r, app_nil_r. destruct H as [H|H].
+    + apply next_ptr_full. exact H.
+    + rewrite (next_ptr_spare k e H). split; [exact H | reflexivity].
+  - assert (H1 : spare partial k (next_ptr zero e) /\
+                 firstn k (eb_arr (next_ptr zero e)) = firstn k (eb_arr e)).
+    { destruct H as [H|H]; [apply next_ptr_full; exact H|].
+      rewrite (next_ptr_spare k e H). split; [exact H | reflexivity]. }
+    destruct H1 as [[Hl [Hc [Hle Hs]]] Hf]. set (e1 := next_ptr zero e) in *.
+    rewrite Hl. replace (S k - 1)%nat with k by lia.
+    set (e2 := mkEB (write_nth partial k x (eb_arr e1)) (S k) (S (eb_cnt e1))).
+    assert (H2 : full (S k) e2).
+    { unfold full, e2. simpl. rewrite Hc, length_write_nth. repeat split; lia. }
+    destruct (IH e2 (S k) (or_introl H2)) as [R1 R2].
+    replace (k + S (List.length r))%nat with (S k + List.length r)%nat by lia.
+    split; [exact R1|]. rewrite R2. unfold e2. simpl eb_arr.
+    rewrite firstn_S_write_nth by (auto; lia). rewrite Hf, <- app_assoc. reflexivity.
+Qed.
+
+End Buf.
+
+(* ------------------------------------------------------------------ one classic histogram, with exemplars *)
+
+Section OneHistEx.
+Variable parse_le : string -> option num.
+Variable c : cfg.
+Hypothesis no_keep : keep_classic c = false.
+(* exemplar writes are exact: the wrapped parser assigns every field of the exemplar, or the
+   buffer slot is zeroed before it is used again (repair 3) *)
+Hypothesis exact_ex : ex_partial c = false \/ fix_exzero c = true.
+
+(* what a collated series does to the parser state (exemplars allowed) *)
+Lemma process_classic_fields_ex : forall p s v n u t',
+  apply_u (p_tmp p) u v = Some t' ->
+  let p' := process_classic c p s v n u in
+  p_state p' = SCollecting /\ p_typ p' = p_typ p /\ p_bname p' = p_bname p /\ p_ts p' = p_ts p /\
+  p_tmp p' = t' /\
+  p_ex p' = store_exemplars (ex_partial c) (fix_exzero c) (p_ex p) (s_ex s) /\
+  p_tmpts p' = p_ts p /\
+  (p_state p = SCollecting ->
+     p_tmpl p' = p_tmpl p /\ p_tmpst p' = p_tmpst p /\ p_lastname p' = p_lastname p /\
+     p_lasthash p' = p_lasthash p) /\
+  (p_state p <> SCollecting ->
+     p_tmpl p' = metric_base (s_lset s) n /\ p_tmpst p' = (if parse_st c then s_st s else 0) /\
+     p_lastname p' = n /\ p_lasthash p' = without (s_lset s) [LE]).
+Proof.
+  intros p s v n u t' Ha p'. subst p'. unfold process_classic.
+  assert (Hu : (let '(tmp, oom) :=
+                  match u, v with
+                  | USum, _ => (set_sum (p_tmp p) v, false)
+                  | UCount, Fin z => (set_count (p_tmp p) z, false)
+                  | UBucket le, Fin z => match set_bucket (p_tmp p) le z with
+                                         | Some t => (t, false) | None => (p_tmp p, true) end
+                  | _, _ => (p_tmp p, true)
+                  end in (tmp, oom)) = (t', false)).
+  { unfold apply_u in Ha. destruct u as [le| |]; destruct v; try discriminate; try (inversion Ha; reflexivity).
+    destruct (set_bucket (p_tmp p) le z); inversion Ha; reflexivity. }
+  destruct (p_state p) eqn:Es; simpl;
+    cbn [p_tmp p_state p_typ p_bname p_ts p_tmpl p_ex p_tmpst p_lastname p_lasthash p_oom] in *.
+  all: match type of Hu with (let '(tmp, oom) := ?X in _) = _ =>
+         destruct X as [tmp oom] eqn:EX; inversion Hu; subst tmp oom end.
+  all: cbn.
+  all: repeat split; auto; try (intros; congruence); try (intros X; exfalso; apply X; reflexivity).
+Qed.
+
+Definition member_ok (n : string) (key : labels) (m : mem) : Prop :=
+  member parse_le n key (m_sample m) (m_upd m).
+Definition all_ex (ms : list mem) : list exem := flat_map (fun m => s_ex (m_sample m)) ms.
+
+Lemma collecting_run_ex : forall n key ms p t' k,
+  p_state p = SCollecting -> p_typ p = T_HISTOGRAM -> p_bname p = n ->
+  p_lastname p = n -> p_lasthash p = key ->
+  full k (p_ex p) \/ spare (ex_partial c) k (p_ex p) ->
+  Forall (member_ok n key) ms ->
+  apply_all (p_tmp p) ms = Some t' ->
+  exists p', run_from parse_le c p (map to_series ms) = (p', []) /\
+    p_state p' = SCollecting /\ p_tmp p' = t' /\ p_tmpl p' = p_tmpl p /\ p_tmpst p' = p_tmpst p /\
+    (full (k + List.length (all_ex ms)) (p_ex p') \/ spare (ex_partial c) (k + List.length (all_ex ms)) (p_ex p')) /\
+    firstn (k + List.length (all_ex ms)) (eb_arr (p_ex p')) = firstn k (eb_arr (p_ex p)) ++ all_ex ms /\
+    p_ts p' = last (map (fun m => s_ts (m_sample m)) ms) (p_ts p) /\
+    p_tmpts p' = last (map (fun m => s_ts (m_sample m)) ms) (p_tmpts p).
+Proof.
+  intros n key ms. induction ms as [|m r IH]; intros p t' k Hs Ht Hb Hn Hk Hbuf Hall Ha.
+  - simpl in Ha. inversion Ha; subst. exists p. simpl. rewrite Nat.add_0_r, app_nil_r.
+    repeat split; auto.
+  - apply Forall_cons_iff in Hall. destruct Hall as [Hm Hr].
+    simpl in Ha. destruct (apply_u (p_tmp p) (m_upd m) (m_val m)) as [t1|] eqn:E1; [|discriminate].
+    set (q := set_ts p (s_ts (m_sample m))).
+    assert (Hd : different_metric q (s_lset (m_sample m)) = false)
+      by (eapply member_not_different; eauto).
+    assert (Hstep : step parse_le c p (to_series m) =
+                    (process_classic c q (m_sample m) (m_val m) n (m_upd m), [])).
+    { unfold to_series. rewrite step_series_eq. cbv zeta. fold q.
+      replace (p_state q) with SCollecting by (symmetry; exact Hs). rewrite Hd.
+      rewrite (handle_member parse_le c q n key _ _ _ Ht Hb Hm).
+      unfold emit_series. rewrite no_keep. reflexivity. }
+    pose proof (process_classic_fields_ex q (m_sample m) (m_val m) n (m_upd m) t1 E1) as PF.
+    cbv zeta in PF. destruct PF as [F1 [F2 [F3 [F4 [F5 [F6 [F8 [F9 _]]]]]]]].
+    destruct (F9 Hs) as [G1 [G2 [G3 G4]]].
+    set (p1 := process_classic c q (m_sample m) (m_val m) n (m_upd m)) in *.
+    pose proof (store_exemplars_spec (ex_partial c) (fix_exzero c) exact_ex (s_ex (m_sample m)) (p_ex q) k Hbuf) as SB.
+    cbv zeta in SB. rewrite <- F6 in SB. destruct SB as [SB1 SB2].
+    assert (Ha1 : apply_all (p_tmp p1) r = Some t') by (rewrite F5; exact Ha).
+    assert (Ht1 : p_typ p1 = T_HISTOGRAM) by (rewrite F2; exact Ht).
+    assert (Hb1 : p_bname p1 = n) by (rewrite F3; exact Hb).
+    assert (Hn1 : p_lastname p1 = n) by (rewrite G3; exact Hn).
+    assert (Hk1 : p_lasthash p1 = key) by (rewrite G4; exact Hk).
+    destruct (IH p1 t' (k + List.length (s_ex (m_sample m)))%nat F1 Ht1 Hb1 Hn1 Hk1 (or_intror SB1) Hr Ha1)
+      as [p' [Hrun [R1 [R2 [R3 [R4 [R5 [R5b [R6 R7]]]]]]]]].
+    assert (Hlen : (k + List.length (all_ex (m :: r)) =
+                    k + List.length (s_ex (m_sample m)) + List.length (all_ex r))%nat).
+    { unfold all_ex. simpl. rewrite app_length. lia. }
+    exists p'. split.
+    + rewrite map_cons, run_from_cons, Hstep, Hrun. reflexivity.
+    + split; [exact R1|]. split; [exact R2|]. split; [rewrite R3, G1; reflexivity|].
+      split; [rewrite R4, G2; reflexivity|].
+      split; [rewrite Hlen; exact R5|].
+      split.
+      * rewrite Hlen, R5b, SB2. unfold all_ex. simpl. rewrite <- app_assoc. reflexivity.
+      * split.
+        -- rewrite R6, F4. change (map (fun m0 => s_ts (m_sample m0)) (m :: r))
+             with (s_ts (m_sample m) :: map (fun m0 => s_ts (m_sample m0)) r).
+           rewrite last_cons_default'. reflexivity.
+        -- rewrite R7, F8. change (map (fun m0 => s_ts (m_sample m0)) (m :: r))
+             with (s_ts (m_sample m) :: map (fun m0 => s_ts (m_sample m0)) r).
+           rewrite last_cons_default'. reflexivity.
+Qed.
+
+(* One classic histogram, exemplars included. *)
+Theorem one_histogram_ex : forall n key m0 ms p t' nh,
+  p_state p = SStart -> p_typ p = T_HISTOGRAM -> p_bname p = n -> p_tmp p = th_empty ->
+  full 0 (p_ex p) ->
+  Forall (member_ok n key) (m0 :: ms) ->
+  apply_all th_empty (m0 :: ms) = Some t' ->
+  convert t' = Some nh -> validate nh = true ->
+  let hist := ONhcb (mkS (metric_base (s_lset (m_sample m0)) n)
+                         (last (map (fun m => s_ts (m_sample m)) (m0 :: ms)) None)
+                         (if parse_st c then s_st (m_sample m0) else 0)
+                         (all_ex (m0 :: ms))) nh in
+  (forall e, is_meta e = true ->
+     snd (run_from parse_le c p (map to_series (m0 :: ms) ++ [e])) = [hist; to_o e]) /\
+  (let '(p', out) := run_from parse_le c p (map to_series (m0 :: ms)) in
+   out ++ snd (process_nhcb c p') = [hist]).
+Proof.
+  intros n key m0 ms p t' nh Hs Ht Hb Htmp Hfull Hall Ha Hc Hv hist.
+  apply Forall_cons_iff in Hall. destruct Hall as [Hm Hr].
+  simpl in Ha. destruct (apply_u th_empty (m_upd m0) (m_val m0)) as [t1|] eqn:E1; [|discriminate].
+  set (q := set_ts p (s_ts (m_sample m0))).
+  assert (Hstep : step parse_le c p (to_series m0) =
+                  (process_classic c q (m_sample m0) (m_val m0) n (m_upd m0), [])).
+  { unfold to_series. rewrite step_series_eq. cbv zeta. fold q.
+    replace (p_state q) with SStart by (symmetry; exact Hs).
+    rewrite (handle_member parse_le c q n key _ _ _ Ht Hb Hm).
+    unfold emit_series. rewrite no_keep. reflexivity. }
+  assert (E1' : apply_u (p_tmp q) (m_upd m0) (m_val m0) = Some t1)
+    by (change (p_tmp q) with (p_tmp p); rewrite Htmp; exact E1).
+  pose proof (process_classic_fields_ex q (m_sample m0) (m_val m0) n (m_upd m0) t1 E1') as PF.
+  cbv zeta in PF. destruct PF as [F1 [F2 [F3 [F4 [F5 [F6 [F8 [_ F10]]]]]]]].
+  assert (Hq : p_state q <> SCollecting) by (change (p_state q) with (p_state p); congruence).
+  destruct (F10 Hq) as [G1 [G2 [G3 G4]]].
+  set (p1 := process_classic c q (m_sample m0) (m_val m0) n (m_upd m0)) in *.
+  pose proof (store_exemplars_spec (ex_partial c) (fix_exzero c) exact_ex (s_ex (m_sample m0)) (p_ex q) 0%nat
+                (or_introl Hfull)) as SB.
+  cbv zeta in SB. rewrite <- F6 in SB. destruct SB as [SB1 SB2]. simpl in SB1, SB2.
+  assert (Hk : p_lasthash p1 = key) by (rewrite G4; destruct Hm as [_ [Hw _]]; exact Hw).
+  assert (Ha1 : apply_all (p_tmp p1) ms = Some t') by (rewrite F5; exact Ha).
+  assert (Ht1 : p_typ p1 = T_HISTOGRAM) by (rewrite F2; exact Ht).
+  assert (Hb1 : p_bname p1 = n) by (rewrite F3; exact Hb).
+  destruct (collecting_run_ex n key ms p1 t' (List.length (s_ex (m_sample m0))) F1 Ht1 Hb1 G3 Hk (or_intror SB1) Hr Ha1)
+    as [p' [Hrun [R1 [R2 [R3 [R4 [R5 [R5b [R6 R7]]]]]]]]].
+  assert (Hrun0 : run_from parse_le c p (map to_series (m0 :: ms)) = (p', [])).
+  { rewrite map_cons, run_from_cons, Hstep, Hrun. reflexivity. }
+  assert (Hts : (if fix_ts c then p_tmpts p' else p_ts p') =
+                last (map (fun m => s_ts (m_sample m)) (m0 :: ms)) None).
+  { change (map (fun m => s_ts (m_sample m)) (m0 :: ms))
+      with (s_ts (m_sample m0) :: map (fun m => s_ts (m_sample m)) ms).
+    rewrite last_cons_default', R6, R7, F4, F8. destruct (fix_ts c); reflexivity. }
+  assert (Hex : firstn (eb_cnt (p_ex p')) (eb_arr (p_ex p')) = all_ex (m0 :: ms)).
+  { assert (Hcnt : eb_cnt (p_ex p') = (List.length (s_ex (m_sample m0)) + List.length (all_ex ms))%nat).
+    { destruct R5 as [[_ [Hc' _]]|[_ [Hc' _]]]; exact Hc'. }
+    rewrite Hcnt, R5b, SB2. reflexivity. }
+  assert (Hflush : forall p2, p_state p2 = SCollecting -> p_tmp p2 = p_tmp p' -> p_tmpl p2 = p_tmpl p' ->
+             p_tmpts p2 = p_tmpts p' -> p_ts p2 = p_ts p' -> p_tmpst p2 = p_tmpst p' -> p_ex p2 = p_ex p' ->
+             snd (process_nhcb c p2) = [hist]).
+  { intros p2 A1 A2 A3 A4 A5 A6 A7. rewrite (flush_collecting c p2 nh A1); [|rewrite A2, R2; exact Hc|exact Hv].
+    rewrite A3, A4, A5, A6, A7, Hts, Hex, R3, R4, G1, G2. reflexivity. }
+  split.
+  - intros e He. rewrite run_from_app, Hrun0.
+    destruct e as [s v|s hid|n2 t2|k a b]; try discriminate.
+    + simpl.
+      match goal with |- context [process_nhcb c ?P] =>
+        pose proof (Hflush P R1 eq_refl eq_refl eq_refl eq_refl eq_refl eq_refl) as HF;
+        destruct (process_nhcb c P) as [[b0 p3] fl] end.
+      simpl in HF. subst fl. reflexivity.
+    + simpl.
+      pose proof (Hflush p' R1 eq_refl eq_refl eq_refl eq_refl eq_refl eq_refl) as HF.
+      destruct (process_nhcb c p') as [[b0 p3] fl]. simpl in HF. subst fl. reflexivity.
+  - rewrite Hrun0. simpl. apply Hflush; auto.
+Qed.
+
+End OneHistEx.
